@@ -118,6 +118,13 @@ def do_write(ctx, g, sh, start, data, tag):
     ctx.feature('regions_spanned_%d' % spans)
     must_reject = start + n > DATA_END
     try:
+        import warnings
+        strict = (start + 2 * n) % 5 == 0
+        if strict:
+            # a process that turns warnings into errors (python -W error, a test runner's filterwarnings=error): a valid write has
+            # nothing to warn about, and a refused one raises its own error
+            warnings.simplefilter('error')
+            ctx.feature('writes_with_warnings_as_errors')
         # the data is a byte string in any of the usual guises; the address is given by position, by keyword, or left out when it is 0
         k = (start + n) % 6
         arg = (bytes(data), bytearray(data), memoryview(bytes(data)))[k % 3]
@@ -134,6 +141,9 @@ def do_write(ctx, g, sh, start, data, tag):
         raised = None
     except Exception as e:
         raised = e
+    finally:
+        if strict:
+            warnings.resetwarnings()
     after_regions = carts.game_regions(g)
     after = b''.join(after_regions[x] for x, _ in REGIONS)
     ctx.monitor('writes_observed')
@@ -409,6 +419,8 @@ def gates(m, tier):
     for k in ('data_type:bytes', 'data_type:bytearray', 'data_type:memoryview', 'address_argument:positional', 'address_argument:keyword', 'address_argument:left_out'):
         if f.get(k, 0) < (5 if k.endswith('left_out') else 20):
             missed.append('%s: %d writes' % (k, f.get(k, 0)))
+    if f.get('writes_with_warnings_as_errors', 0) < 300:
+        missed.append('writes with warnings turned into errors: %d' % f.get('writes_with_warnings_as_errors', 0))
     if f.get('cart_with_label', 0) < 500 or f.get('cart_without_label', 0) < 200:
         missed.append('writes to carts with a label %d, without %d' % (f.get('cart_with_label', 0), f.get('cart_without_label', 0)))
     if mon.get('saved_carts_compared', 0) < 20:
